@@ -89,6 +89,49 @@ COMMON_TRUSTED = [
     "`Scanner::threshold` / `Scanner::block_size` only overwrite their field (ScanSwitch.v) is tied by replay only",
 ]
 
+def release_overflow_tie(prop):
+    """`extra` step of C02 / C03: the overflow witnesses of corpus/<id>/wave3_overflow.txt through the RELEASE build of
+    the harness and the driver with SCAN_DRIVER_ALL=1.  The runner ignores release verdicts of cases whose dev verdict is
+    not OK (the witnesses panic in the dev profile: known finding F-scan-ovf), so without this step the Wrapping mode of
+    the word-level model (coq/scan/ScanWord.v) would never be compared with the code.  Any DIFF is a broken tie."""
+    def extra(ctx):
+        import os
+        import subprocess
+        from vlib import common as C
+        out = []
+        if os.environ.get("VERIF_NO_RELEASE") == "1":
+            return out
+        path = os.path.join(C.VERIF, "corpus", prop.upper(), "wave3_overflow.txt")
+        if not os.path.exists(path):
+            return out
+        lines = [l for l in open(path).read().splitlines() if l.strip() and not l.startswith("#")]
+        hr = C.build_harness("scan", release=True)
+        if not hr.get("ok"):
+            return [("DIFF", "release-profile overflow witnesses: release harness build failed", "")]
+        try:
+            obs = subprocess.run([hr["path"], prop, "run"], input="\n".join(lines) + "\n", capture_output=True,
+                                 text=True, timeout=600)
+            env = dict(os.environ, SCAN_DRIVER_ALL="1")
+            ver = subprocess.run([ctx["driver"]["path"], prop], input=obs.stdout, capture_output=True, text=True,
+                                 timeout=600, env=env)
+        except (subprocess.SubprocessError, OSError) as e:
+            return [("DIFF", "release-profile overflow witnesses: %s" % (e,), "")]
+        by_id = {l.split(" ", 1)[0]: l for l in lines}
+        seen = set()
+        for l in ver.stdout.splitlines():
+            seen.add(l.split(" ", 1)[0])
+        for i in by_id:
+            if i not in seen:
+                out.append(("DIFF", "release-profile overflow witness %s: no verdict" % i, by_id[i]))
+        for l in ver.stderr.splitlines():
+            p = l.split(" ", 3)
+            if len(p) >= 3 and p[0] == "#" and p[2] == "DIFF":
+                out.append(("DIFF", "release-profile overflow witness: " + " ".join(p[1:]), by_id.get(p[1], "")))
+        out.append(("EVAL", str(len(lines)), ""))
+        return out
+    return extra
+
+
 def _e2e_obligations():
     # the end-to-end composition theorems of coq/e2e (text -> encode -> stripe -> configure -> Scanner) count as
     # obligations of this property in the thorough tier
@@ -105,6 +148,7 @@ SPEC = dict(
     props_file="C02.v",
     more_props=[("C02Source.v", "LMScan.C02Source"), ("C02Total.v", "LMScan.C02Total")],
     translate=scan_skel.translate,
+    extra=release_overflow_tie("c02"),
     module="LMScan.C02",
     harness_bin="scan",
     harness_args=["c02"],
